@@ -50,7 +50,8 @@ def norm(p):
 def diff_inputs():
     """(name, input bytes, list of sections: set of acceptable repo-relative paths per section)"""
     out = []
-    kinds = ["modified", "added", "deleted", "rename", "rename_change", "mode", "binary", "mode_change"]
+    kinds = ["modified", "added", "deleted", "rename", "rename_change", "mode", "binary", "mode_change", "empty",
+             "copy"]
     for k1 in kinds:
         for k2 in ("modified", "rename_change", "mode"):
             l1, i1 = producers.section(k1, 0, "minusplus")
@@ -66,6 +67,10 @@ def diff_inputs():
     # commit line
     data = ("commit %s\nAuthor: A\n\n    msg\n\n" % H40).encode() + out[0][1]
     out.append(("commit+" + out[0][0], data, out[0][2]))
+    # commit line + diffstat (its path is rewritten and linked under --relative-paths)
+    data = ("commit %s\nAuthor: A\n\n    msg\n---\n f0.txt | 2 +-\n 1 file changed, 1 insertion(+), 1 deletion(-)\n\n"
+            % H40).encode() + out[0][1]
+    out.append(("commit+stat+" + out[0][0], data, out[0][2]))
     return out
 
 
